@@ -203,6 +203,16 @@ def _check_function(run: Run, ctx: TermCtx, fi: FuncInfo, seen) -> None:
     for s, n in rets:
         t = strip_sites(fa.term_of(s.value, n)) if s.value is not None else ("const", None)
         ok, why, data = _is_digest_of(t)
+        if not ok and isinstance(s.value, ast.Call) and isinstance(s.value.func, ast.Attribute) and s.value.func.attr == "hexdigest" and isinstance(s.value.func.value, ast.Name):
+            # h = hashlib.md5(); h.update(data); return h.hexdigest() - the incremental spelling with one update
+            hn = s.value.func.value.id
+            defs = [x for x in own_nodes(fi) if isinstance(x, ast.Assign) and len(x.targets) == 1 and isinstance(x.targets[0], ast.Name) and x.targets[0].id == hn]
+            ups = [x for x in own_nodes(fi) if isinstance(x, ast.Expr) and isinstance(x.value, ast.Call) and isinstance(x.value.func, ast.Attribute) and x.value.func.attr == "update" and isinstance(x.value.func.value, ast.Name) and x.value.func.value.id == hn]
+            other = [x for x in own_nodes(fi) if isinstance(x, ast.Name) and x.id == hn and isinstance(x.ctx, ast.Load)]
+            if len(defs) == 1 and len(ups) == 1 and len(other) == 2 and len(ups[0].value.args) == 1 and fa.cfg.has_node(ups[0]):
+                dt = strip_sites(fa.term_of(defs[0].value))
+                if dt[0] == "app" and dt[1][0] == "global" and dt[1][1].startswith("hashlib.") and not dt[2] and fa.cfg.dominates(fa.cfg.node_of(defs[0]), fa.cfg.node_of(ups[0])) and fa.cfg.dominates(fa.cfg.node_of(ups[0]), n) and fa.cfg.postdominates(fa.cfg.node_of(ups[0]), fa.cfg.node_of(defs[0])):
+                    ok, why, data = True, "", strip_sites(fa.term_of(ups[0].value.args[0]))
         run.check(ok, "C20.R1", fi, s, "return value is <hashlib algo>(data).hexdigest()", f"returned value is not the digest of the dump: {why}", term=show(t))
         if not ok:
             continue
